@@ -128,6 +128,8 @@ def positive_read(g, exons, i, j, delta, end_slack=0, min_len=25):
             d = g.int("jitter_donor%d" % (i + k), -delta, delta)
             e = b + d
         out.append((s, e))
+    for (s, e) in out:
+        g.add(s + 1 <= e)          # jitters larger than a micro-exon must not turn it inside out
     return out
 
 
